@@ -261,9 +261,13 @@ macro_rules! k8v {
 k8v!(k8v_varempty_0, [], 6);
 //@ k8v_varempty_1 props=C03,C01 tier=quick expect=pass fns=eval_guard_access_clause,unary_operation :: clause level, `[not] %v [!]empty` on one resolved Int: not empty; negations flip
 k8v!(k8v_varempty_1, [V_INT], 6);
-//@ k8v_varempty_2a props=C03,C01 tier=thorough expect=pass fns=eval_guard_access_clause,unary_operation :: clause level, `[not] %v [!]empty` on (Null, "x"): a null entry counts as empty, a string does not; some/all fold over two entries
+//@ k8v_varempty_1n props=C03,C01 tier=thorough expect=pass fns=eval_guard_access_clause,unary_operation :: clause level, `[not] %v [!]empty` on one Null entry: a null entry counts as empty; negations flip
+k8v!(k8v_varempty_1n, [V_NULL], 6);
+//@ k8v_varempty_1u props=C03,C01 tier=thorough expect=pass fns=eval_guard_access_clause,unary_operation :: clause level, `[not] %v [!]empty` on one unresolved entry: an unresolved entry counts as empty; negations flip
+k8v!(k8v_varempty_1u, [V_UNRESOLVED], 6);
+//@ k8v_varempty_2a props=C03,C01 tier=probe expect=pass fns=eval_guard_access_clause,unary_operation :: (probe only: 7-13 GB of CBMC memory, passes alone in ~10 min, ran out of the 14 GB limit inside a full thorough run) `[not] %v [!]empty` on (Null, "x"): some/all fold over two entries
 k8v!(k8v_varempty_2a, [V_NULL, V_STR_X], 7);
-//@ k8v_varempty_2b props=C03,C01 tier=thorough expect=pass fns=eval_guard_access_clause,unary_operation :: clause level, `[not] %v [!]empty` on (unresolved, "x"): an unresolved entry counts as empty; some/all fold over two entries
+//@ k8v_varempty_2b props=C03,C01 tier=probe expect=pass fns=eval_guard_access_clause,unary_operation :: (probe only, see 2a) `[not] %v [!]empty` on (unresolved, "x")
 k8v!(k8v_varempty_2b, [V_UNRESOLVED, V_STR_X], 7);
 
 //@ k8_twin props=C01,C02,C03 tier=quick expect=fail fns=eval_guard_access_clause :: vacuity twin of the clause-level family
